@@ -77,13 +77,15 @@ theorem eq_of_nodup_names : ∀ (cs : List ClassDecl), (cs.map (·.name)).Nodup 
   | [], _, c, hc, _, _, _ => by cases hc
   | x :: xs, h, c, hc, d, hd, e => by
     simp only [List.map_cons, List.nodup_cons] at h
-    rcases List.mem_cons.mp hc with rfl | hc <;> rcases List.mem_cons.mp hd with rfl | hd
-    · rfl
-    · have : c.name ∈ xs.map (·.name) := List.mem_map.mpr ⟨d, hd, e⟩
+    rcases List.mem_cons.mp hc with hc1 | hc1 <;> rcases List.mem_cons.mp hd with hd1 | hd1
+    · rw [hc1, hd1]
+    · subst hc1
+      have : c.name ∈ xs.map (·.name) := List.mem_map.mpr ⟨d, hd1, e⟩
       exact absurd this h.1
-    · have : d.name ∈ xs.map (·.name) := List.mem_map.mpr ⟨c, hc, e.symm⟩
+    · subst hd1
+      have : d.name ∈ xs.map (·.name) := List.mem_map.mpr ⟨c, hc1, e.symm⟩
       exact absurd this h.1
-    · exact eq_of_nodup_names xs h.2 c hc d hd e
+    · exact eq_of_nodup_names xs h.2 c hc1 d hd1 e
 
 /-- `has` from: the classes are in the environment, whose class names are pairwise distinct -/
 theorem PenvOK.of_nodup (env : ResultTypes.Env) (penv : Pyd.Env) (classes : List ClassDecl)
